@@ -102,23 +102,31 @@ fn weights(p: Profile) -> &'static [(Code, u32)] {
         Profile::Iters => &[
             (Insert, 30), (Remove, 10), (Iter, 8), (Keys, 4), (Values, 4), (IterMut, 5), (ValuesMut, 4), (IntoIter, 4),
             (Drain, 6), (Retain, 3), (Entry, 4), (Reserve, 1), (ShrinkToFit, 1),
+            // a sprinkle of every other state-changing call: an iterator is only as good as
+            // the state the calls before it left behind
+            (Get, 2), (GetMut, 3), (GetKeyValueMut, 2), (RawEntryMut, 3), (RemoveEntry, 2), (DrainFilter, 2), (Extend, 2), (ShrinkTo, 1), (TryReserve, 1), (CloneFrom, 1), (Clear, 1),
         ],
         Profile::Partition => &[
             (Insert, 30), (Remove, 8), (Retain, 12), (DrainFilter, 14), (Entry, 4), (Get, 2), (Reserve, 1), (ShrinkToFit, 1),
+            (GetMut, 2), (GetKeyValueMut, 1), (RawEntryMut, 2), (Extend, 1), (ShrinkTo, 1), (TryReserve, 1),
         ],
         Profile::Capacity => &[
             (Insert, 30), (Remove, 10), (Reserve, 8), (TryReserve, 10), (ShrinkToFit, 5), (ShrinkTo, 8), (WithCapacity, 2),
             (Retain, 2), (Entry, 4), (Probe, 3), (Clear, 1),
+            (GetMut, 1), (GetKeyValueMut, 1), (RawEntryMut, 2), (Extend, 2), (DrainFilter, 1),
         ],
         Profile::Headroom => &[
             (Insert, 34), (Remove, 14), (Retain, 4), (Entry, 8), (ShrinkToFit, 6), (ShrinkTo, 8), (Reserve, 8), (TryReserve, 3),
             (CloneSwap, 2), (CloneFrom, 3), (Probe, 5), (DrainFilter, 2), (Clear, 1),
+            (GetMut, 2), (GetKeyValueMut, 1), (RawEntryMut, 3), (Extend, 2),
         ],
         Profile::Entry => &[
             (Insert, 20), (Remove, 8), (Entry, 30), (RawEntryMut, 26), (RawEntry, 4), (Get, 3), (Retain, 1), (ShrinkToFit, 1), (Reserve, 1),
+            (GetMut, 2), (GetKeyValueMut, 2), (Extend, 1), (DrainFilter, 1), (TryReserve, 1),
         ],
         Profile::Clone => &[
             (Insert, 30), (Remove, 10), (CloneSwap, 8), (CloneFrom, 10), (EqSelf, 3), (Entry, 6), (Retain, 2), (Reserve, 2), (ShrinkToFit, 1), (GetMut, 3),
+            (GetKeyValueMut, 1), (RawEntryMut, 3), (Extend, 2), (DrainFilter, 1), (ShrinkTo, 1), (TryReserve, 1),
         ],
         Profile::Work => &[
             (Insert, 40), (Get, 8), (GetMut, 4), (ContainsKey, 4), (Remove, 12), (RemoveEntry, 4), (Entry, 12), (RawEntryMut, 10), (RawEntry, 3), (Index, 2), (GetKeyValue, 2),
